@@ -223,6 +223,20 @@ add(
     category="fault_enumeration",
 )
 
+add(
+    "C12",
+    "property-based testing (Hypothesis) of every engine class against fake external MD programs with generated output schedules and faults; independent frame readers and reference order parameters",
+    "LAMMPS, CP2K and GROMACS engines are run against fake lmp/cp2k/gmx programs (free flight with elastic reflection, real file formats) whose "
+    "behaviour script is generated: frames per flush, pauses, frames cut in the middle, slow SIGTERM, death with an exit code at frame m, "
+    "per-frame varying box; ASE and TurtleMD run in-process; the scripted plug-in through EngineBase.propagate. For generated start points "
+    "(frame k of a multi-frame file, velocity-direction flag), order parameters (periodic Distance incl. > half a box, Velocity, Distancevel), "
+    "interfaces, subcycles, maxlen and direction: first frame = given point; stored order of every frame = order recomputed by the harness "
+    "from the frame the path references (own box, own velocity direction); stop rule and success flag; external program gone afterwards; "
+    "non-zero exit raises RuntimeError instead of a truncated path; energies on the right frames; backward propagation retraces forward. Sampled.",
+    "Real MD programs are absent; fakes emit the documented formats. Wall-clock timing of the fakes is real: a verdict that is not reproduced on "
+    "immediate re-execution is reported as ':timing-dependent'.",
+)
+
 NOT_YET = "check not built yet in this session (design exists in DESIGN.md §4); will be claimed once its check is registered"
 
 
